@@ -272,6 +272,9 @@ const_moduli! {
     (C4Lz1, U256, 4, "7fffffff00000000ffffffffffffffffbce6faada7179e84f3b9cac2fc632551"),
     (C4Lz4, U256, 4, "0fffffff00000000ffffffffffffffffbce6faada7179e84f3b9cac2fc632551"),
     (C8Quarter, U512, 8, "3fffffffffffffffffffffffffffffffffffffffffffffffffffffffffffffffffffffffffffffffffffffffffffffffffffffffffffffffffffffffffffffff"),
+    // full-width moduli whose LOW limb has many leading zeros (seed C09-m7: MOD_LEADING_ZEROS taken from limb 0)
+    (C2LowZ, U128, 2, "ffffffffffffffff0000000000000005"),
+    (C4LowZ, U256, 4, "ffffffffffffffffffffffffffffffffffffffffffffffff0000000000000003"),
     (C1Sq, U64, 1, "fffffff600000019"),
     (C2Pow3, U128, 2, "6f32f1ef8b18a2bc3cea59789c79d441"),
     (C16Half, U1024, 16, "8000000000000000000000000000000000000000000000000000000000000000000000000000000000000000000000000000000000000000000000000000000000000000000000000000000000000000000000000000000000000000000000000000000000000000000000000000000000000000000000000000000000000001"),
